@@ -109,7 +109,7 @@ def _chain(body: list[ast.stmt], start: str, step: Callable[[str], str], self_ca
     pre_emits = _yields(pl[0].stmts)
     first = start if include_start else step(start)
     carried = sorted({n.id for n in ast.walk(lp) if isinstance(n, ast.Name) and isinstance(n.ctx, ast.Store)})
-    init = {v: _last_store(pl[0].stmts, v) for v in carried}
+    init = {v: (_last_store(pl[0].stmts, v) or v) for v in carried}  # not assigned before the loop: the variable's own incoming value (a parameter)
     # one iteration, in terms of the entry values  v__in
     entry = [ast.Assign(targets=[ast.Name(id=v, ctx=ast.Store())], value=ast.Name(id=f"{v}__in", ctx=ast.Load()), lineno=lp.lineno, col_offset=0) for v in carried]
     it: list[ast.stmt] = list(entry)
